@@ -12,7 +12,7 @@ import (
 func init() {
 	register(&Check{
 		ID: "C06", Level: "exploration", QuickSecs: 150, ThoroughSecs: 1200,
-		Rule:        "(F1) all block-free bodies over {'a','b',\"ab\",\"\",[ab],[^a],.} x {?,*,+,&,!} x seq/choice up to N nodes (quick 4, thorough 5); (F2) every single label+action decoration for N<=3; (F3) forced revisits: a rule R (every body up to 4 nodes, every single label placement, with a rule-level action, an always-failing action error, or a label-dependent predicate; for bodies up to 3 (4) nodes also INLINE: the block parenthesised behind the variable-width prefix \"a\"* - thorough also [ab]? - so that the rule starts at two offsets but the block at one) reached at one offset along two paths by the templates {R 'b' / R, &R R, R 'b' / . r:R {act}, R / . R, (R 'b' / R)*}. (F4) left-recursive grammars generated with -support-left-recursion (direct, two-level tower, indirect pairs with both name orders entered through either rule, a non-recursive rule with an action called inside a discarded growth attempt and again afterwards; each also with every action returning an error). Inputs over {a,b} up to L=3 (4). All 8 combinations of Memoize, Debug, Statistics: success/failure, value and code-block errors must equal the default-option run (which itself is compared with the reference); with Memoize every (block, start offset) is invoked at most once, a census hook at the entry of parseExpr shows that no (expression node, offset) pair is evaluated twice (labeled expressions excepted) and Stats.ExprCnt <= (#expressions of the emitted grammar) x (len+1). Non-trivial = under Memoize at least one memo hit changed the number of block invocations or evaluated expressions.",
+		Rule:        "(F1) all block-free bodies over {'a','b',\"ab\",\"\",[ab],[^a],.} x {?,*,+,&,!} x seq/choice up to N nodes (quick 4, thorough 5); (F2) every single label+action decoration for N<=3; (F3) forced revisits: a rule R (every body up to 4 nodes, every single label placement, with a rule-level action, an always-failing action error, or a label-dependent predicate; for bodies up to 3 (4) nodes also INLINE: the block parenthesised behind the variable-width prefix \"a\"* - thorough also [ab]? - so that the rule starts at two offsets but the block at one) reached at one offset along two paths by the templates {R 'b' / R, &R R, R 'b' / . r:R {act}, R / . R, (R 'b' / R)*}. (F5) every ordered pair of 9 terminals with the same text but different flags or kinds ('a', 'a'i, 'A'i, [a], [a]i, [^a], \"ab\", \"ab\"i, .) tried at the same offsets, inputs over {a,A,b,x}; (F4) left-recursive grammars generated with -support-left-recursion (direct, two-level tower, indirect pairs with both name orders entered through either rule, a non-recursive rule with an action called inside a discarded growth attempt and again afterwards; each also with every action returning an error). Inputs over {a,b} up to L=3 (4). All 8 combinations of Memoize, Debug, Statistics: success/failure, value and code-block errors must equal the default-option run (which itself is compared with the reference); with Memoize every (block, start offset) is invoked at most once, a census hook at the entry of parseExpr shows that no (expression node, offset) pair is evaluated twice (labeled expressions excepted) and Stats.ExprCnt <= (#expressions of the emitted grammar) x (len+1). Non-trivial = under Memoize at least one memo hit changed the number of block invocations or evaluated expressions.",
 		Assumptions: []string{"E1 loader", "blocks are pure functions of text, pos and their labels by construction"},
 		Run:         runC06,
 	})
@@ -229,6 +229,26 @@ func runC06(c *ShardCtx) {
 			dec := peg.ReplaceNth(body, pos, func(x *peg.Expr) *peg.Expr { return peg.Action(1, peg.Label("x", x), "x") })
 			run(wrap(dec), nil)
 		}
+	}
+	// F5: terminals with the same text but different flags or kinds tried at the same offset
+	// (a table entry of one must never answer for the other)
+	{
+		terms := []func() *peg.Expr{
+			func() *peg.Expr { return peg.Lit("a") }, func() *peg.Expr { return peg.LitI("a") }, func() *peg.Expr { return peg.LitI("A") },
+			func() *peg.Expr { return peg.Cls(false, false, "a") }, func() *peg.Expr { return peg.Cls(false, true, "a") }, func() *peg.Expr { return peg.Cls(true, false, "a") },
+			func() *peg.Expr { return peg.Lit("ab") }, func() *peg.Expr { return peg.LitI("ab") }, func() *peg.Expr { return peg.Any() },
+		}
+		saved := inputs
+		inputs = peg.Inputs([]string{"a", "A", "b", "x"}, 3)
+		for _, t1 := range terms {
+			for _, t2 := range terms {
+				if c.Expired("F5") {
+					return
+				}
+				run(wrap(peg.Seq(peg.Choice(peg.Seq(t1(), peg.Lit("x")), t2()), peg.Opt(peg.Choice(peg.Seq(t2(), peg.Lit("x")), t1())))), nil)
+			}
+		}
+		inputs = saved
 	}
 	// F3
 	enR := peg.NewEnumerator(peg.Alphabet{Leaves: []*peg.Expr{peg.Lit("a"), peg.Lit("b"), peg.Cls(false, false, "a", "b")}, Unary: []peg.Kind{peg.KOpt, peg.KStar}, Seq: true, Choice: true, MaxArity: 2})
